@@ -219,7 +219,9 @@ def main(tier):
             continue
         if 'rejected' in r:
             stats['rejected'] += 1
-            run.note(f'rejected by the compiler: {r["rejected"][:160]} :: {sp.sentences[-1].text[:140]}')
+            # the generator writes specifications of the fragment only: a rejection leaves the specification without a program
+            run.violation('rejected/' + classify(sp.agg_sentences[-1]), f'a specification of the fragment is rejected by the compiler: {r["rejected"][:200]}',
+                          {'cnl': sp.text(), 'error': r['rejected']})
             continue
         stats['accepted'] += 1
         run.count(sp.text())
